@@ -19,7 +19,7 @@ type ent struct{ i, t uint64 }
 func data(i, t uint64) []byte { return []byte(fmt.Sprintf("e%d.%d", i, t)) }
 
 type aeCase struct {
-	log      []ent // follower's entries (contiguous, terms non-decreasing)
+	log      []ent  // follower's entries (contiguous, terms non-decreasing)
 	snap     uint64 // snapshot index (0 none); log retains entries > snap-trail
 	trail    uint64
 	cur      uint64
@@ -93,32 +93,39 @@ func genCases(maxL int, f func(aeCase)) {
 								// entries: k entries from prev+1; conflictAt = index in batch from which terms are "new" (rt)
 								for k := 0; k <= 3; k++ {
 									for ca := 0; ca <= k; ca++ {
-										var es []ent
-										ok := true
-										last := pt
-										for j := 0; j < k; j++ {
-											idx := prev + uint64(j) + 1
-											var t uint64
-											if j < ca && idx <= uint64(L) && ts[idx-1] >= last {
-												t = ts[idx-1] // duplicate of what the follower holds
-											} else if j < ca {
-												ok = false
-												break
-											} else {
-												t = rt
+										// the leader's own entries from the conflict position on: of the request's
+										// term, or of an older term than what a stale follower may hold there
+										for _, ct := range []uint64{rt, pt, pt + 1} {
+											if ct == 0 || ct > rt || (ct != rt && ca == k) || (ct == pt+1 && ct == rt) {
+												continue
 											}
-											if t < last || t > rt {
-												ok = false
-												break
+											var es []ent
+											ok := true
+											last := pt
+											for j := 0; j < k; j++ {
+												idx := prev + uint64(j) + 1
+												var t uint64
+												if j < ca && idx <= uint64(L) && ts[idx-1] >= last {
+													t = ts[idx-1] // duplicate of what the follower holds
+												} else if j < ca {
+													ok = false
+													break
+												} else {
+													t = ct
+												}
+												if t < last || t > rt {
+													ok = false
+													break
+												}
+												es = append(es, ent{idx, t})
+												last = t
 											}
-											es = append(es, ent{idx, t})
-											last = t
-										}
-										if !ok {
-											continue
-										}
-										for _, lc := range []uint64{0, prev + uint64(k), 50} {
-											f(aeCase{log: log, snap: sn.snap, trail: sn.trail, cur: cur, reqTerm: rt, prev: prev, prevTerm: pt, ents: es, lc: lc})
+											if !ok {
+												continue
+											}
+											for _, lc := range []uint64{0, prev + uint64(k), 50} {
+												f(aeCase{log: log, snap: sn.snap, trail: sn.trail, cur: cur, reqTerm: rt, prev: prev, prevTerm: pt, ents: es, lc: lc})
+											}
 										}
 									}
 								}
